@@ -303,3 +303,34 @@ Definition nfa_diff_cap (fuel : nat) (A B : nfa) : res (option word) :=
   ores (gdiff (list nat) (list nat) (eqb_list Nat.eqb) (eqb_list Nat.eqb)
               (nset_step A) (nset_step B) (nset_final A) (nset_final B)
               (set_union (n_syms A) (n_syms B)) fuel (nset_init A) (nset_init B)).
+
+(* ---- finite compositions of the operations ("programs" of the property) ---- *)
+Inductive nexp :=
+| NLeaf (A : nfa)
+| NUnion (e f : nexp) | NConcat (e f : nexp) | NStar (e : nexp) | NOption (e : nexp) | NReverse (e : nexp)
+| NInter (e f : nexp) | NShuffle (e f : nexp) | NRQuot (e f : nexp) | NLQuot (e f : nexp).
+
+Definition bind2 (x y : res nfa) (f : nfa -> nfa -> res nfa) : res nfa :=
+  bind x (fun a => bind y (fun b => f a b)).
+
+Fixpoint nfa_eval (e : nexp) : res nfa :=
+  match e with
+  | NLeaf A => Ok A
+  | NUnion e f => bind2 (nfa_eval e) (nfa_eval f) nfa_union
+  | NConcat e f => bind2 (nfa_eval e) (nfa_eval f) nfa_concat
+  | NStar e => bind (nfa_eval e) nfa_star
+  | NOption e => bind (nfa_eval e) nfa_option
+  | NReverse e => bind (nfa_eval e) nfa_reverse
+  | NInter e f => bind2 (nfa_eval e) (nfa_eval f) nfa_intersection
+  | NShuffle e f => bind2 (nfa_eval e) (nfa_eval f) nfa_shuffle
+  | NRQuot e f => bind2 (nfa_eval e) (nfa_eval f) nfa_right_quotient
+  | NLQuot e f => bind2 (nfa_eval e) (nfa_eval f) nfa_left_quotient
+  end.
+
+Fixpoint nexp_leaves_ok (e : nexp) : bool :=
+  match e with
+  | NLeaf A => valid_nfa A && rows_keyed A
+  | NStar e | NOption e | NReverse e => nexp_leaves_ok e
+  | NUnion e f | NConcat e f | NInter e f | NShuffle e f | NRQuot e f | NLQuot e f =>
+    nexp_leaves_ok e && nexp_leaves_ok f
+  end.
